@@ -18,7 +18,7 @@ RULE = (
     "tables: 1..60 feature columns (every residue modulo the column-scan chunk size, chunk sizes 2..25 and the "
     "default 19), shuffled column order, random letter case of the reserved names, every subset of the optional "
     "filename/calcmass/expmass/ret_time columns, rollup-level columns, label encodings 1/-1, 1/0, bool, NaN in "
-    "0..3 feature columns at first/middle/last row (first/last feature chunk), row-scan chunk sizes {1,2,n,n+1}, "
+    "0..3 feature columns (float and integer typed) at first/middle/last row (first/last feature chunk), row-scan chunk sizes {1,2,n,n+1}, "
     "workers {1,2,4,8}, text and Parquet; reject: a required column removed or a label of 2/-2. Non-trivial = "
     ">=2 features and (a NaN column or >=1 optional column or non-default casing); distinct = distinct "
     "(n_features, identifier count, column-chunk size, NaN placement, format, casing) signature."
@@ -79,7 +79,14 @@ def gen_table(rng, nfeat=None):
     for j in range(nfeat):
         nm = f"Feat_{j:02d}_x"
         feats.append(nm)
-        cols[nm] = np.round(rng.normal(size=n), 5) if j % 3 else rng.integers(0, 50, size=n).astype(float)
+        if j % 3:
+            cols[nm] = np.round(rng.normal(size=n), 5)
+        elif j % 2:
+            cols[nm] = rng.integers(0, 50, size=n).astype(float)
+        else:
+            # a genuinely integer-typed column (nullable): text shows "12", a missing value is an empty field /
+            # a Parquet null, and a two-row peek at the file sees an integer column
+            cols[nm] = pd.array(rng.integers(0, 50, size=n), dtype="Int64")
     order = list(cols)
     if rng.random() < 0.7:
         order = [str(c) for c in rng.permutation(order)]
@@ -100,7 +107,7 @@ def gen_table(rng, nfeat=None):
         nan_cols = [str(c) for c in rng.choice(pool, size=min(n_nan, len(pool)), replace=False)]
         for c in nan_cols:
             row = {"first": 0, "middle": n // 2, "last": n - 1}[str(rng.choice(["first", "middle", "last"]))]
-            df.loc[row, c] = np.nan
+            df.loc[row, c] = pd.NA if str(df[c].dtype) == "Int64" else np.nan
     exp_features = [c for c in feat_in_file_order if c not in nan_cols]
     exp_spectra = []
     for role in ("filename", "ScanNr", "ret_time", "expmass"):
